@@ -65,6 +65,11 @@ func (w *WAL) ManageRetention(config WALRetentionConfig) (int, error) {
 	var fileInfos []WALFileInfo
 	now := time.Now()
 
+	// The file holding the highest sequence number written so far
+	var newestWithEntries string
+	var newestSeq uint64
+	haveNewest := false
+
 	for _, filePath := range files {
 		// Skip the current file
 		if filePath == currentFile {
@@ -88,6 +93,8 @@ func (w *WAL) ManageRetention(config WALRetentionConfig) (int, error) {
 			// If we can't determine sequence bounds, use conservative values
 			minSeq = 0
 			maxSeq = ^uint64(0) // Max uint64 value, to ensure we don't delete it based on sequence
+		} else if !haveNewest || maxSeq > newestSeq {
+			haveNewest, newestSeq, newestWithEntries = true, maxSeq, filePath
 		}
 
 		fileInfos = append(fileInfos, WALFileInfo{
@@ -145,6 +152,16 @@ func (w *WAL) ManageRetention(config WALRetentionConfig) (int, error) {
 			if fi.MaxSeq < config.MinSequenceKeep {
 				toDelete[fi.Path] = true
 			}
+		}
+	}
+
+	// Recovery takes the next sequence number from the log files alone. While
+	// the current file holds no entry yet, the newest older file that does is
+	// the only record of how far the sequence has advanced: whatever the
+	// policies say, it stays until a newer entry exists on disk
+	if haveNewest && toDelete[newestWithEntries] {
+		if _, _, err := getSequenceBounds(currentFile); err != nil {
+			delete(toDelete, newestWithEntries)
 		}
 	}
 
